@@ -117,7 +117,8 @@ Definition code {A} (r : outcome A) : string := match r with Ok _ => "o" | Err e
 
 (* one selector list through validate, the six functions (marking RED where one is
    needed, default flags) and construction with the list in a granular
-   marking: validate get is_marked add remove clear set ctor, one letter each *)
+   marking, then is_marked / get_markings with inherited and descendants:
+   validate get is_marked add remove clear set ctor is_marked_inh get_inh, one letter each *)
 Definition c08_line (c : cfg) (o : sobj) (sels : list ustring) : string :=
   (if validate c (view o) sels then "o" else "S") ++
   code (get_markings c o (Some sels) false false true true) ++
@@ -126,7 +127,10 @@ Definition c08_line (c : cfg) (o : sobj) (sels : list ustring) : string :=
   code (remove_markings c o [red] (Some sels)) ++
   code (clear_markings c o (Some sels) true true) ++
   code (set_markings c o [red] (Some sels) true true) ++
-  (match o_kind o with KObj => code (construct_with c o sels) | KDict => "-" end).
+  (match o_kind o with KObj => code (construct_with c o sels) | KDict => "-" end) ++
+  (* the queries with inherited / descendants: asking for the first object marking if there is one *)
+  code (is_marked c o (match omr_list o with m :: _ => [m] | [] => [] end) (Some sels) true true) ++
+  code (get_markings c o (Some sels) true true true true).
 
 Definition c08_lines (c : cfg) (o : sobj) (sels : list (list ustring)) : string :=
   join " " (map (c08_line c o) sels).
